@@ -117,6 +117,20 @@ def gen_programs(rng, pairs_everywhere):
         o = rng.choice([x for x in range(nthreads) if x != t])
         if len(programs[o]) < 10:
             programs[o].insert(rng.randrange(len(programs[o]) + 1), H.thd_data(pid, child))
+    if rng.random() < 0.3:
+        # a name string whose data record is missing (tracing began between the two records) on a thread that another
+        # thread's new-thread record maps to a pid: the orphan string teaches nothing, whatever the merge
+        t = rng.randrange(nthreads)
+        o = rng.choice([x for x in range(nthreads) if x != t])
+        idx = next((i for i, a in enumerate(programs[t]) if a[0] in ('TRACE_DATA_NEWTHREAD', 'TRACE_DATA_EXEC')), None)
+        if idx is not None:
+            del programs[t][idx]
+        elif len(programs[t]) < 10:
+            programs[t].insert(0, H.A(rng.choice(('TRACE_STRING_EXEC', 'TRACE_STRING_NEWTHREAD')), rng.choice((H.NONE, H.ALL)),
+                                      H.name32(b'orphan-name')))
+        if len(programs[o]) < 10:
+            programs[o].insert(rng.randrange(len(programs[o]) + 1),
+                               H.A('TRACE_DATA_NEWTHREAD', H.NONE, (10 + t, 100 * (o + 1), 0, 0)))
     if colliding is not None:
         victim = (colliding + 1) % nthreads
         if len(programs[colliding]) < 10:
